@@ -176,7 +176,7 @@ func genDoc(r *rand.Rand, o genOpts) *docSpec {
 	if mixed && d.NPages > 1 {
 		d.feat("page.mixed-size")
 	}
-	d.CharLevel = r.Intn(7) == 0
+	d.CharLevel = r.Intn(8) == 0
 	if d.CharLevel {
 		d.feat("page.char-level")
 	}
